@@ -987,12 +987,13 @@ def mon_C09(case):
                 if not (0 <= p["r"] <= p["v"] <= c["last"]):
                     pp = pre.cache.get(t, {}).get("users", {}).get(u) if pre else None
                     st_ = ln.store.get(t, {}).get("csubs" if p.get("chan") else "subs", {}).get(u)
-                    fresh = pre is None or t not in pre.cache or u not in pre.cache[t]["users"]
+                    # (a restart loads `sys` at once: what it caches then is what the store holds, like any topic loaded later)
+                    fresh = pre is None or t not in pre.cache or u not in pre.cache[t]["users"] or w[0] == "restart"
                     if fresh and st_ is not None and (st_["r"], st_["v"]) == (p["r"], p["v"]):
                         continue           # loaded as stored: the stored marks were reported when they were written
                     if pp is None or (pp["r"], pp["v"]) != (p["r"], p["v"]):
                         out.append((i, f"C09 in memory {u} on {t}: read={p['r']} recv={p['v']} last={c['last']}"))
-                if pre and t in pre.cache and u in pre.cache[t]["users"] and not pre.cache[t]["users"][u]["deleted"]:
+                if pre and t in pre.cache and u in pre.cache[t]["users"] and not pre.cache[t]["users"][u]["deleted"] and w[0] != "restart":
                     pp = pre.cache[t]["users"][u]
                     if p["r"] < pp["r"] or p["v"] < pp["v"]:
                         out.append((i, f"C09 in memory marks of {u} on {t} moved back: read {pp['r']}->{p['r']} recv {pp['v']}->{p['v']}"))
@@ -1636,6 +1637,11 @@ def mon_C13(case):
         w = o.split(" ")
         if ln.plain in ("panic", "crash"):
             out.append((i, f"C13 the server panicked while processing `{o}`"))
+            continue
+        if ln.plain == "blocked" and i > 0 and case.lines[i - 1].held is None and case.lines[i - 1].plain is None:
+            out.append((i, f"C13 [never-served] `{o}` is never answered: the session's slot for a {{sub}} or {{leave}} is still taken by an earlier request "
+                           f"although nothing is queued anywhere - the connection's read loop waits here for ever, this and every later request of "
+                           f"the session stay unanswered"))
             continue
         if ln.plain is None and w[0] in ME_REQS and not any(s == w[1] and f.split(" ")[0] in ("ctrl", "meta") for s, f in ln.meframes):
             out.append((i, f"C13 request `{w[0][2:]}` on `me` from {w[1]} was not answered"))
